@@ -58,6 +58,19 @@ def gen_cases(ctx):
     dist = {}
 
     def add(line, kind):
+        # harness limit: Split/BatchSplit::forward_shape writes n output shapes; the driver provides at most
+        # 2^20 slots, so an ACCEPTED split into more than 2^20 parts (only possible for an extent >= 2^20
+        # that n divides, e.g. batch 2^31 into 2^31 parts) cannot be run there and is left out (counted)
+        t = line.split()
+        if t[0] in ("split", "batch_split"):
+            n = int(t[-1])
+            if n > (1 << 20):
+                dims, b = t[1].rsplit(":", 1) if ":" in t[1] else (t[1], "1")
+                ds = [int(x) for x in dims.split(",") if x not in ("", "-")]
+                ext = int(b) if t[0] == "batch_split" else (ds[int(t[2])] if int(t[2]) < len(ds) else 1)
+                if ext % n == 0 and ext >= n:
+                    dist["left-out:accepted-split-over-2^20-parts"] = dist.get("left-out:accepted-split-over-2^20-parts", 0) + 1
+                    return
         cases.append(line)
         dist[kind] = dist.get(kind, 0) + 1
 
